@@ -201,7 +201,8 @@ type process struct {
 	ws     appdef.IWorkspaceBuilder
 	docs   map[string]bool
 	hasRec bool
-	ready  bool // the configuration is prepared (the application runs)
+	ready  bool           // the configuration is prepared (the application runs)
+	fixed  appdef.IAppDef // set for a redeployment through IAppStructsProvider.New
 }
 
 func (p *process) addDoc(d docSpec) {
@@ -263,10 +264,36 @@ func (p *process) grow(s schema) (err error) {
 	return nil
 }
 
-func (p *process) def() (appdef.IAppDef, error) { return p.adb.Build() }
+func (p *process) def() (appdef.IAppDef, error) {
+	if p.fixed != nil {
+		return p.fixed, nil
+	}
+	return p.adb.Build()
+}
 
-// get = the application start of this process, or its in-process retry
-func (p *process) get() (istructs.IAppStructs, error) { return p.prov.BuiltIn(appName) }
+// get = the application start of this process, or its in-process retry; for a redeployment
+// IAppStructsProvider.New with the new definition on the provider that is already running
+func (p *process) get() (istructs.IAppStructs, error) {
+	if p.fixed != nil {
+		return p.prov.New(appName, p.fixed, 1, 1)
+	}
+	return p.prov.BuiltIn(appName)
+}
+
+// redeploy: the application is deployed again, with another definition, through the provider of
+// the running process (IAppStructsProvider.New): a new configuration with new registry objects
+func redeploy(prev *process, s schema) (*process, error) {
+	def, err := s.build()
+	if err != nil {
+		return nil, err
+	}
+	p := &process{prov: prev.prov, docs: map[string]bool{}, fixed: def}
+	for _, d := range s.Docs {
+		p.docs[d.Name] = true
+		p.hasRec = p.hasRec || len(d.Containers) > 0
+	}
+	return p, nil
+}
 
 func rename(st istorage.IAppStorage, oldN, newN string) error {
 	return qrename.Rename(st, appdef.MustParseQName(oldN), appdef.MustParseQName(newN))
